@@ -227,6 +227,8 @@ const (
 	vkSafeRune
 	vkSliceSafe
 	vkStructSafe
+	vkSliceRedSafe  // pre-redactable followed by safe siblings
+	vkStructRedSafe // struct: RedactableBytes field followed by a Safe() field
 	vkNumRedact
 )
 
@@ -375,6 +377,10 @@ func mkValue(kind int, s string, i int) interface{} {
 		return []interface{}{redact.Safe(pubS), s, safeInt(pubI), i}
 	case vkStructSafe:
 		return ifaceStruct{redact.Safe(pubS), s}
+	case vkSliceRedSafe:
+		return []interface{}{s, redact.RedactableString("r‹e›"), redact.SafeString("sib"), safeInt(3), redact.Safe("w")}
+	case vkStructRedSafe:
+		return ifaceStruct{redact.RedactableBytes("b‹e›"), redact.Safe(pubS)}
 	}
 	panic("mkValue: bad kind")
 }
